@@ -145,9 +145,74 @@ def impl_latest(case):
     return {"idx": idx, "cmp_to_latest": cmps}
 
 
+def _stack_build(case):
+    root = common.scratch("c10s")
+    stacks, _ = common.mkstacks(root, nstacks=len(case["stacks"]))
+    e = common.new_eups()
+    with contextlib.redirect_stderr(io.StringIO()), contextlib.redirect_stdout(io.StringIO()):
+        for si, vers in enumerate(case["stacks"]):
+            for v in vers:
+                d = common.mkprod(stacks[si], "prod", v)
+                e.declare("prod", v, d, eupsPathDir=stacks[si])
+    return root, stacks
+
+
+def _stack_query(case, root, stacks):
+    os.environ["EUPS_PATH"] = ":".join(stacks)
+    os.environ["EUPS_USERDATA"] = os.path.join(root, "userdataA")
+    from eups import utils
+    utils.stdwarn = io.StringIO()
+    e = common.new_eups()
+    cached = all(bool(e.versions.get(st)) for st, vers in zip(stacks, case["stacks"]) if vers)
+
+    def guarded(f):
+        try:
+            with contextlib.redirect_stderr(io.StringIO()), contextlib.redirect_stdout(io.StringIO()):
+                return f()
+        except IndexError:
+            return {"err": "IndexError"}
+        except AttributeError:
+            return {"err": "Malformed"}
+        except Exception as ex:  # noqa
+            return {"err": "E:" + type(ex).__name__}
+
+    def latest():
+        p = e.findTaggedProduct("prod", "latest")
+        return None if p is None else [stacks.index(p.stackRoot()), p.version]
+
+    def matches():
+        ps = e._findProductsByExpr("prod", case["expr"], e.path, e.flavor, False)
+        return sorted([stacks.index(p.stackRoot()), p.version] for p in ps)
+
+    out = {"latest": guarded(latest), "matches": guarded(matches), "cached": cached}
+    allv = [v for st in case["stacks"] for v in st]
+    if isinstance(out["latest"], list):
+        out["cmp_to_latest"] = "".join(impl_cmp(v, out["latest"][1], False) for v in allv)
+    out["terms"] = {v: [impl_cmp(v, tv, True) for _, tv in case["terms"]] for v in allv}
+    return out
+
+
+def impl_stack(case):
+    """One child builds the stacks (declare), a fresh one answers the queries (first Eups of its process)."""
+    r = common.in_child(_stack_build, case)
+    if r[0] != "ok":
+        raise common.InfraError("building the stacks failed: %r" % (r,))
+    root, stacks = r[1]
+    try:
+        q = common.in_child(_stack_query, case, root, stacks)
+    finally:
+        common.rmtree(root)
+    if q[0] != "ok":
+        raise common.InfraError("querying the stacks failed: %r" % (q,))
+    return q[1]
+
+
 def impl_small(jobs):
     out = []
     for c in jobs:
+        if c["kind"] == "stack":
+            out.append(impl_stack(c))
+            continue
         out.append(impl_match(c) if c["kind"] == "match" else impl_latest(c))
     if _E is not None:
         common.rmtree(_E._c10root)
@@ -346,11 +411,13 @@ def eval_small(ctx, cases):
     """match and latest cases"""
     if not cases:
         return
-    impl = impl_small_forked(cases, WORKERS if len(cases) > 200 else 1)
+    impl = impl_small_forked(cases, WORKERS if (len(cases) > 200 or cases[0]["kind"] == "stack") else 1)
     reqs = []
     for c in cases:
         if c["kind"] == "match":
             reqs.append({"m": "c10", "op": "match", "v": c["v"], "expr": c["expr"]})
+        elif c["kind"] == "stack":
+            reqs.append({"m": "c10", "op": "stacks", "stacks": c["stacks"], "expr": c["expr"]})
         else:
             reqs.append({"m": "c10", "op": "latest", "names": c["names"]})
     answers = ctx.lean.ask_many(reqs)
@@ -358,7 +425,9 @@ def eval_small(ctx, cases):
         if "bad-op" in ans:
             raise common.InfraError("model refused %r: %s" % (c, ans["bad-op"]))
         inp = {k: v for k, v in c.items() if not k.startswith("_")}
-        if c["kind"] == "match":
+        if c["kind"] == "stack":
+            eval_stack(ctx, c, inp, io_, ans)
+        elif c["kind"] == "match":
             mo = ans["r"]
             ctx.case(key=("m", c["v"], c["expr"]), nontrivial=bool(c["terms"]),
                      sample={"input": inp, "impl": io_} if ctx.evaluations % 9973 == 5 else None)
@@ -394,19 +463,93 @@ def eval_small(ctx, cases):
                 ctx.fail("latest_no_crash", inp, io_cmp, mo, note="selection raised on conventional names")
 
 
+def eval_stack(ctx, c, inp, io_, ans):
+    allv = [v for st in c["stacks"] for v in st]
+    ctx.case(key=("s", c["stacks"], c["expr"]), nontrivial=len(set(allv)) > 1,
+             sample={"input": inp, "impl": io_} if ctx.evaluations % 997 == 3 else None)
+    ctx.hist("stack/nstacks=%d" % len(c["stacks"]))
+    ctx.hist("stack/cache-used" if io_["cached"] else "stack/database-read")
+    mo = {"latest": ans["latest"], "matches": sorted(ans["matches"]) if isinstance(ans["matches"], list) else ans["matches"]}
+    ic = {"latest": io_["latest"], "matches": io_["matches"]}
+    if ic["latest"] != mo["latest"]:
+        ctx.disagree("latest_through_stacks", inp, ic, mo)
+    if ic["matches"] != mo["matches"]:
+        ctx.disagree("matches_through_stacks", inp, ic, mo)
+    # oracle (ii)
+    lat = io_["latest"]
+    if isinstance(lat, dict):
+        ctx.fail("latest_no_crash", inp, ic, mo, note="findTaggedProduct raised %s" % lat["err"])
+    elif (lat is None) != (not allv):
+        ctx.fail("latest_exists", inp, ic, mo, note="latest = %r for declared versions %r" % (lat, allv))
+    elif lat is not None:
+        if lat[1] not in c["stacks"][lat[0]]:
+            ctx.fail("latest_is_declared", inp, ic, mo, note="%r is not declared in stack %d" % (lat[1], lat[0]))
+        if any(ch not in "<=" for ch in io_["cmp_to_latest"]):
+            ctx.fail("latest_is_max", inp, ic, mo, note="cmp(x, latest) over the declared versions = %s" % io_["cmp_to_latest"])
+    if c.get("pure") and isinstance(io_["matches"], list):
+        got = set(v for _, v in io_["matches"])
+        for v in dict.fromkeys(allv):
+            ex = expected_match(c, {"terms": io_["terms"][v]})
+            if ex is not None:
+                ctx.hist("stack/oracle:" + ex[0])
+                if (v in got) != (ex[1] == "match"):
+                    ctx.fail(ex[0] + "_through_stacks", inp, ic, mo,
+                             note="version %r compares %s with the terms; expected %s" % (v, io_["terms"][v], ex[1]))
+        for i, v in io_["matches"]:
+            if v not in c["stacks"][i] or any(v in st for st in c["stacks"][:i]):
+                ctx.fail("matches_first_stack", inp, ic, mo, note="%r reported from stack %d" % (v, i))
+
+
+def spelling_key(d):
+    """Two descriptions with the same key are equal in any order that reads numbers numerically."""
+    def part(x):
+        return None if not x else tuple(int(t) if t.isdigit() else t for t in __import__("re").findall(r"\d+|[A-Za-z]+|[._]", x.replace("_", ".")))
+    return (d["prefix"], tuple(int(x) for x in d["nums"]), part(d["pre"]), part(d["post"]))
+
+
+def gen_stacks(ctx, pool, n):
+    rng = ctx.rng
+    bypre = {}
+    for nme, d in pool:
+        bypre.setdefault(d["prefix"], []).append((nme, d))
+    groups = [g for g in bypre.values() if len(g) >= 12]
+    odd = ["w9", "foo", "1:2", "(", "=", "-1"]
+    cases = []
+    for _ in range(n):
+        grp = rng.choice(groups)
+        base = rng.sample(grp, min(len(grp), 10))
+        if rng.random() < 0.6:        # respellings of the chosen versions: ties between stacks
+            base += [(L.render(e), e) for _, d in base[:4] for e in L.neighbours(rng, d)[-2:]]
+        stacks = []
+        for _s in range(rng.choice([1, 2, 2, 3])):
+            st, keys = [], set()
+            for nme, d in rng.sample(base, min(len(base), rng.choice([0, 1, 2, 3, 4]))):
+                k = spelling_key(d)
+                if k not in keys and nme not in st:      # inside one stack no two versions are equal in the order
+                    keys.add(k)
+                    st.append(nme)
+            stacks.append(st)
+        text, terms, pure = L.random_expr(rng, [nme for nme, _ in base], odd)
+        cases.append({"kind": "stack", "stacks": stacks, "expr": text, "terms": [list(t) for t in terms], "pure": pure})
+    return cases
+
+
 # ---- generators -------------------------------------------------------------------------------------------
 
-def conv_sets(ctx):
+SIZES = {   # name sets and case counts per tier; "search" is the budget of the hunt for a failing input after a correspondence break
+    "quick":    dict(g1404=300,  wide=330,  arb_sets=45,  match=2500,  latest=600,  stacks=150),
+    "search":   dict(g1404=1404, wide=700,  arb_sets=150, match=10000, latest=2000, stacks=450),
+    "thorough": dict(g1404=1404, wide=1600, arb_sets=600, match=40000, latest=8000, stacks=2500),
+}
+
+
+def conv_sets(ctx, sz):
     """(tag, names, descs) — the conventional name sets of this run."""
     g = L.grammar1404()
-    if ctx.tier != "thorough" and not ctx.escalated:
-        # a seeded sample that keeps every primary spelling and every pre/post part
-        keep = ctx.rng.sample(g, 300)
-    else:
-        keep = g
+    keep = ctx.rng.sample(g, sz["g1404"]) if sz["g1404"] < len(g) else g
     yield ("g1404", [L.render(d) for d in keep], keep)
     wide, seen = [], set()
-    target = ctx.n(330, 1600)
+    target = sz["wide"]
     while len(wide) < target:
         d = L.random_conventional(ctx.rng)
         for e in [d] + (L.neighbours(ctx.rng, d) if ctx.rng.random() < 0.35 else []):
@@ -467,20 +610,20 @@ def run_case(ctx, c):
         eval_small(ctx, [c])
 
 
-def run(ctx):
+def run(ctx, sz=None):
+    sz = sz or SIZES["thorough" if (ctx.tier == "thorough" or ctx.escalated) else "quick"]
     cc = corpus_cases()
     ctx.hist("corpus", len(cc))
     for c in cc:
         run_case(ctx, c)
     pool = []
-    for tag, names, descs in conv_sets(ctx):
+    for tag, names, descs in conv_sets(ctx, sz):
         if ctx.out_of_time():
             break
         eval_names(ctx, names, descs, tag=tag)
         pool += list(zip(names, descs))
     # arbitrary strings over the well-formed alphabet, in sets (all ordered pairs of each set)
-    nsets = ctx.n(45, 600)
-    for _ in range(nsets):
+    for _ in range(sz["arb_sets"]):
         if ctx.out_of_time():
             break
         names = list(dict.fromkeys(L.random_arbitrary(ctx.rng) for _ in range(32)))
@@ -488,17 +631,71 @@ def run(ctx):
         names += [L.render(L.random_conventional(ctx.rng)) for _ in range(4)]
         eval_names(ctx, list(dict.fromkeys(names)), tag="arbitrary")
     if pool and not ctx.out_of_time():
-        eval_small(ctx, gen_small(ctx, pool, ctx.n(2500, 40000), ctx.n(600, 8000)))
+        eval_small(ctx, gen_small(ctx, pool, sz["match"], sz["latest"]))
+    if pool and not ctx.out_of_time():
+        eval_small(ctx, gen_stacks(ctx, pool, sz["stacks"]))
     h = ctx.histogram
     if not ctx.out_of_time():
-        for k in ("arbitrary/strict:U", "arbitrary/sort:<", "arbitrary/sort:M", "match/outcome=match", "match/outcome=nomatch",
+        for k in ("stack/cache-used", "stack/oracle:match_iff_relation", "arbitrary/strict:U", "arbitrary/sort:<", "arbitrary/sort:M", "match/outcome=match", "match/outcome=nomatch",
                   "match/oracle:match_iff_relation", "wide/sort:=", "g1404/sort:<"):
             if not h.get(k):
                 raise common.InfraError("degenerate distribution: nothing counted under %r" % k)
-        if h.get("match/outcome=match", 0) < 0.1 * ctx.n(2500, 40000):
-            raise common.InfraError("degenerate distribution: fewer than 10%% of the expressions match")
+        if h.get("match/outcome=match", 0) < 0.1 * h.get("match/terms=1", 1):
+            raise common.InfraError("degenerate distribution: hardly any expression matches")
     if ctx.evaluations and ctx.distinct_nontrivial < ctx.evaluations * 0.3:
         raise common.InfraError("degenerate distribution: %d non-trivial of %d" % (ctx.distinct_nontrivial, ctx.evaluations))
+
+
+def names_of(inp):
+    if inp.get("kind") == "names":
+        return list(inp["names"])
+    if inp.get("kind") == "match":
+        return [inp["v"]] + [t[1] for t in inp["terms"]]
+    if inp.get("kind") in ("latest",):
+        return list(inp["names"])
+    if inp.get("kind") == "stack":
+        return [v for st in inp["stacks"] for v in st] + [t[1] for t in inp["terms"]]
+    return []
+
+
+def search(ctx):
+    """After a correspondence break with no failing input: first the neighbourhood of the disagreeing
+    inputs (their names, all one-character edits of them, all ordered pairs and every triple of the
+    conventional ones), then a fresh random budget four times the quick one with the whole 1,404 grammar."""
+    seeds = []
+    for dg in ctx.disagreements[:40]:
+        for x in names_of(dg["input"]):
+            if x not in seeds and len(x) <= 40:
+                seeds.append(x)
+    neigh = list(seeds[:40])
+    for x in seeds[:12]:
+        for i in range(len(x) + 1):
+            for ch in "019a._+-":
+                neigh.append(x[:i] + ch + x[i:])
+                if i < len(x):
+                    neigh.append(x[:i] + ch + x[i + 1:])
+            if i < len(x):
+                neigh.append(x[:i] + x[i + 1:])
+    neigh = [x for x in dict.fromkeys(neigh) if all(c.isalnum() or c in "._+-" for c in x)]
+    ctx.rng.shuffle(neigh)
+    neigh = list(dict.fromkeys(seeds[:40] + neigh[:700]))
+    if neigh:
+        ctx.hist("search/neighbourhood-names", len(neigh))
+        eval_names(ctx, neigh, tag="search")
+    for dg in ctx.disagreements[:40]:
+        inp = dg["input"]
+        if inp.get("kind") in ("match", "stack", "latest") and not ctx.out_of_time():
+            # the same request against every neighbour of its version / the same versions with every sub-chain
+            variants = []
+            if inp["kind"] == "match":
+                for v in neigh[:60]:
+                    variants.append(dict(inp, v=v))
+                for k in range(len(inp["terms"])):
+                    t = inp["terms"][k]
+                    variants.append(dict(inp, expr="%s %s" % (t[0], t[1]), terms=[t], pure=True))
+            eval_small(ctx, variants)
+    if not ctx.failures and not ctx.out_of_time():
+        run(ctx, SIZES["search"])
 
 
 def replay(ctx, rp):
